@@ -13,7 +13,7 @@ open Atree Atree.Gen.TransMap
 
 /-! ## the slice helpers (slice_utils.go): generated code = take / drop / append -/
 
-theorem goSlice_from {α : Type} (l : List α) (n : Nat) (h : n ≤ l.length) :
+theorem msl_goSlice_from {α : Type} (l : List α) (n : Nat) (h : n ≤ l.length) :
     goSlice l (some (Int.ofNat n)) none = some (l.drop n) := by
   simp only [goSlice, Option.getD_some, Option.getD_none]
   have h1 : (0 : Int) ≤ Int.ofNat n ∧ Int.ofNat n ≤ Int.ofNat l.length ∧ Int.ofNat l.length ≤ Int.ofNat l.length := by
@@ -21,7 +21,7 @@ theorem goSlice_from {α : Type} (l : List α) (n : Nat) (h : n ≤ l.length) :
   rw [if_pos h1]
   simp
 
-theorem goSlice_to {α : Type} (l : List α) (n : Nat) (h : n ≤ l.length) :
+theorem msl_goSlice_to {α : Type} (l : List α) (n : Nat) (h : n ≤ l.length) :
     goSlice l none (some (Int.ofNat n)) = some (l.take n) := by
   simp only [goSlice, Option.getD_some, Option.getD_none]
   have h1 : (0 : Int) ≤ 0 ∧ (0 : Int) ≤ Int.ofNat n ∧ Int.ofNat n ≤ Int.ofNat l.length := by
@@ -29,7 +29,7 @@ theorem goSlice_to {α : Type} (l : List α) (n : Nat) (h : n ≤ l.length) :
   rw [if_pos h1]
   simp
 
-theorem goSlicesDelete_tail {α : Type} (l : List α) (n : Nat) (h : n ≤ l.length) :
+theorem msl_goSlicesDelete_tail {α : Type} (l : List α) (n : Nat) (h : n ≤ l.length) :
     goSlicesDelete l (Int.ofNat n) (Int.ofNat l.length) = some (l.take n) := by
   simp only [goSlicesDelete]
   have h1 : (0 : Int) ≤ Int.ofNat n ∧ Int.ofNat n ≤ Int.ofNat l.length ∧ Int.ofNat l.length ≤ Int.ofNat l.length := by
@@ -37,39 +37,39 @@ theorem goSlicesDelete_tail {α : Type} (l : List α) (n : Nat) (h : n ≤ l.len
   rw [if_pos h1]
   simp
 
-theorem goSlicesInsert_front {α : Type} (l vs : List α) :
+theorem msl_goSlicesInsert_front {α : Type} (l vs : List α) :
     goSlicesInsert l (0 : Int) vs = some (vs ++ l) := by
   simp [goSlicesInsert]
 
 /-- `split(s, n)` = `(s[:n], s[n:])` when `0 ≤ n ≤ len(s)` -/
-theorem split_eq {α : Type} (s : List α) (n : Nat) (h : n ≤ s.length) :
+theorem msl_split_eq {α : Type} (s : List α) (n : Nat) (h : n ≤ s.length) :
     split s (Int.ofNat n) = some (s.take n, s.drop n) := by
-  simp only [split, goSlice_from s n h, goSlicesDelete_tail s n h]
+  simp only [split, msl_goSlice_from s n h, msl_goSlicesDelete_tail s n h]
 
 /-- `split(s, n)` panics when `n > len(s)` -/
-theorem split_panics {α : Type} (s : List α) (n : Nat) (h : s.length < n) :
+theorem msl_split_panics {α : Type} (s : List α) (n : Nat) (h : s.length < n) :
     split s (Int.ofNat n) = none := by
   have hn : ¬ n ≤ s.length := by omega
   simp [split, goSlice, hn]
 
 /-- `merge(left, right)` = `left ++ right` (the cleared `right` is dead, see `deadAfterCall`) -/
-theorem merge_eq {α : Type} (l r : List α) : merge l r = l ++ r := rfl
+theorem msl_merge_eq {α : Type} (l r : List α) : merge l r = l ++ r := rfl
 
 /-- `lendToRight(left, right, c)` moves the last `c` elements of `left` in front of `right` -/
-theorem lendToRight_eq {α : Type} (l r : List α) (c : Nat) (h : c ≤ l.length) :
+theorem msl_lendToRight_eq {α : Type} (l r : List α) (c : Nat) (h : c ≤ l.length) :
     lendToRight l r (Int.ofNat c) = some (l.take (l.length - c), l.drop (l.length - c) ++ r) := by
   have e : Int.ofNat l.length - Int.ofNat c = Int.ofNat (l.length - c) := by
     simp only [Int.ofNat_eq_natCast]; omega
-  simp only [lendToRight, e, goSlice_from l (l.length - c) (by omega), goSlicesInsert_front,
-    goSlicesDelete_tail l (l.length - c) (by omega)]
+  simp only [lendToRight, e, msl_goSlice_from l (l.length - c) (by omega), msl_goSlicesInsert_front,
+    msl_goSlicesDelete_tail l (l.length - c) (by omega)]
 
 /-- `borrowFromRight(left, right, c)` moves the first `c` elements of `right` behind `left` -/
-theorem borrowFromRight_eq {α : Type} (l r : List α) (c : Nat) (h : c ≤ r.length) :
+theorem msl_borrowFromRight_eq {α : Type} (l r : List α) (c : Nat) (h : c ≤ r.length) :
     borrowFromRight l r (Int.ofNat c) = some (l ++ r.take c, r.drop c) := by
   have z : goSlice r none (some (0 : Int)) = some [] := by
-    have := goSlice_to r 0 (by omega)
+    have := msl_goSlice_to r 0 (by omega)
     simpa using this
-  simp only [borrowFromRight, goSlice_to r c h, z, goSlice_from r c h, goSlicesInsert_front, List.append_nil]
+  simp only [borrowFromRight, msl_goSlice_to r c h, z, msl_goSlice_from r c h, msl_goSlicesInsert_front, List.append_nil]
 
 /-! ## model values as generated records -/
 
@@ -84,7 +84,7 @@ def cH {α : Type} (e : HkeyElems α) : hkeyElements (MElemF α) :=
 /-- what the theorems assume of the parameters of the generated code: `element.Size()` is the model's element size,
     `minThreshold` the model's, every error constructor yields its class -/
 structure EnvH {α V W X S : Type} (o : ElemsOps α) (T : Nat) (env : Env (MElemF α) V W X S GE) : Prop where
-  size : ∀ el, env.element_Size el = u32 (el.size o)
+  size : ∀ msl_el, env.element_Size msl_el = u32 (msl_el.size o)
   minThr : env.minThreshold = u32 (minThr T)
   eMerge : env.NewSlabMergeError = some .slabMerge
   eRebalance : env.NewSlabRebalanceError = some .slabRebalance
@@ -119,8 +119,8 @@ structure EnvS {E V W X : Type} (env : Env E V W X Ctx GE) : Prop where
   remove : ∀ c id, env.SlabStorage_Remove c id = (none, c.emit (.remove id))
   wrapNone : env.wrapErrorfAsExternalErrorIfNeeded none = none
 
-theorem u64s_take (l : List Nat) (n : Nat) : (u64s l).take n = u64s (l.take n) := by simp [u64s, List.map_take]
-theorem u64s_drop (l : List Nat) (n : Nat) : (u64s l).drop n = u64s (l.drop n) := by simp [u64s, List.map_drop]
-theorem u64s_append (a b : List Nat) : u64s a ++ u64s b = u64s (a ++ b) := by simp [u64s]
+theorem msl_u64s_take (l : List Nat) (n : Nat) : (u64s l).take n = u64s (l.take n) := by simp [u64s, List.map_take]
+theorem msl_u64s_drop (l : List Nat) (n : Nat) : (u64s l).drop n = u64s (l.drop n) := by simp [u64s, List.map_drop]
+theorem msl_u64s_append (a b : List Nat) : u64s a ++ u64s b = u64s (a ++ b) := by simp [u64s]
 
 end Atree.TransEq
